@@ -363,6 +363,7 @@ def level1_configs(tier):
         add(1, 0, 1, revs=(False,))
         add(2, 2, 1)
         add(3, 2, 1, revs=(False,), fragment=True)
+        add(2, 2, 1, revs=(True,), fragment=True)
         add(3, 3, 1, revs=(True,), dp="2")
         add(2, 1, 2)
         add(3, 1, 2, revs=(False,), dp="1/2")
